@@ -238,6 +238,40 @@ Example C18_token_conditions_satisfiable :
   check_token ex_sv ex_keys (-62 * 1000000000)%Z (ex_tok 1) = Some ETokenNotValidYet.
 Proof. vm_compute. auto. Qed.
 
+(* Remote subscribers (create-subscriber with remoteUrl + remoteToken).  The
+   continuation of the handler performs, on the reference-counted remote publisher
+   the media server handed out, the operations handler_refops true r for each
+   outcome r of its two calls (NewRemotePublisher, NewRemoteSubscriber); in `step`
+   the request is a create-subscriber whose completion is rres_mres r.
+   After the handler the remote publisher is open exactly when the subscriber was
+   created (the completion `step` stores), holding exactly the subscriber's
+   reference; the Close of the subscriber (which C18_cleanup / C18_trace guarantee
+   at the end of its session) closes it; a failed request leaves nothing. *)
+Theorem C18_remote_publisher_refs : forall r,
+  refs_after (handler_refops true r) = (if is_ok (rres_mres r) then Some 1 else None) /\
+  refs_after (handler_refops true r ++ sub_close_refops r) = None /\
+  (is_ok (rres_mres r) = false -> refs_after (handler_refops true r) = None /\ sub_close_refops r = []).
+Proof.
+  intro r. split; [apply remote_refs_handler|]. split; [apply remote_refs_closed | apply remote_refs_failed].
+Qed.
+
+(* The release on EVERY exit is needed: giving the creator's reference back only
+   after NewRemoteSubscriber succeeded leaves, for a request whose attach failed, a
+   remote publisher open with one reference and no subscriber whose Close would
+   ever release it (the differential run sees it as an object open at the media
+   server that is in no table: P_C18, cleanup clause). *)
+Theorem C18_remote_release_late_refuted : exists r,
+  is_ok (rres_mres r) = false /\ sub_close_refops r = [] /\
+  refs_after (handler_refops false r ++ sub_close_refops r) = Some 1.
+Proof. exact remote_refs_release_late_refuted. Qed.
+
+(* In `step` a remote create-subscriber is a create-subscriber: one pending creation
+   of kind Sub, completed by one OMcuDone (whose result is rres_mres of the outcome
+   of the two calls at the media server). *)
+Theorem C18_remote_create_is_create : forall sv keys rc st c,
+  step sv keys rc st (OCmd c CCreateSubRemote) = step sv keys rc st (OCmd c CCreateSub).
+Proof. reflexivity. Qed.
+
 Print Assumptions C18_params.
 Print Assumptions C18_hello_sound.
 Print Assumptions C18_token_complete.
@@ -256,3 +290,6 @@ Print Assumptions C18_create_inside_close_repaired.
 Print Assumptions C18_create_inside_close_as_found.
 Print Assumptions C18_create_after_close_refuted.
 Print Assumptions C18_create_after_close_repaired.
+Print Assumptions C18_remote_publisher_refs.
+Print Assumptions C18_remote_release_late_refuted.
+Print Assumptions C18_remote_create_is_create.
